@@ -1,6 +1,7 @@
 package main
 
 import (
+	"os"
 	"fmt"
 	"go/token"
 	"strconv"
@@ -191,6 +192,9 @@ type execOpts struct {
 	// InlineCallee: execute the body of this statically resolved module callee inside the caller's paths
 	// (its stores, calls and branches appear in the path with the arguments substituted). nil = never.
 	InlineCallee func(callee *ssa.Function) bool
+	// NoDynInline: leave calls through function values as call effects even when the path resolves them to a
+	// local function literal (for per-call-site rules that examine the call itself)
+	NoDynInline bool
 	abandoned    *int
 }
 
@@ -223,6 +227,7 @@ type pstate struct {
 	locals  map[*ssa.Alloc]*Term
 	stored  map[string]int           // address key -> number of stores so far on the path
 	elems   map[elemKey]*Term        // elements of local array literals (copy-on-write, shared between forks)
+	maps    map[*ssa.MakeMap][]mapEntry // local map literals with constant keys (copy-on-write)
 	frames  []actFrame               // activations of inlined callees (innermost last); entries are immutable
 	subst   map[*ssa.Parameter]*Term // parameters of the inlined activations (copy-on-write)
 	tc      *TermCtx
@@ -236,6 +241,8 @@ type actFrame struct {
 	idx    int
 	visits map[*ssa.BasicBlock]int // visit counts of the callee's blocks before this activation
 }
+
+type mapEntry struct{ key, val *Term }
 
 type elemKey struct {
 	a *ssa.Alloc
@@ -266,6 +273,7 @@ func (s *pstate) clone() *pstate {
 		locals:  map[*ssa.Alloc]*Term{},
 		stored:  map[string]int{},
 		elems:   s.elems,
+		maps:    s.maps,
 		frames:  append([]actFrame(nil), s.frames...),
 		subst:   s.subst,
 	}
@@ -309,6 +317,9 @@ func pathsOf(prog *Program, fn *ssa.Function, dom *Domain, opts execOpts) ([]*Pa
 	}
 	if dom == nil {
 		dom = &Domain{}
+	}
+	if os.Getenv("DDV_LOG_FUNCS") != "" {
+		fmt.Fprintf(os.Stderr, "PATHFN %s\n", funcName(fn))
 	}
 	ex := &executor{prog: prog, fn: fn, dom: dom, opts: opts, inLoop: map[*ssa.BasicBlock]bool{}, escapd: map[*ssa.Alloc]bool{}}
 	if len(fn.Blocks) == 0 {
@@ -361,11 +372,35 @@ func (ex *executor) scan(fn *ssa.Function) {
 
 // inlinable: a statically resolved module callee with a body, no defers, not already active (no recursion).
 func (ex *executor) inlinable(st *pstate, call *ssa.Call) *ssa.Function {
-	if ex.opts.InlineCallee == nil || call.Common().IsInvoke() {
+	if call.Common().IsInvoke() {
 		return nil
 	}
 	f, ok := call.Common().Value.(*ssa.Function)
-	if !ok || len(f.Blocks) == 0 || len(f.Blocks) > 80 || f == ex.fn || len(st.frames) >= 4 || !ex.opts.InlineCallee(f) {
+	if ok && ex.opts.InlineCallee == nil {
+		return nil
+	}
+	if !ok {
+		// a call through a function value that the path resolves to a capture-free function literal of the
+		// function under analysis (an entry of a local dispatch table)
+		if t := st.tc.Of(call.Common().Value); t != nil && !ex.opts.NoDynInline {
+			if lit, isF := t.V.(*ssa.Function); isF && lit.Parent() != nil && len(lit.FreeVars) == 0 && len(lit.Blocks) > 0 && len(lit.Blocks) <= 80 && len(st.frames) < 4 {
+				owner := lit.Parent() == ex.fn
+				for _, fr := range st.frames {
+					if fr.fn == lit {
+						return nil
+					}
+					if lit.Parent() == fr.fn {
+						owner = true
+					}
+				}
+				if owner {
+					return lit
+				}
+			}
+		}
+		return nil
+	}
+	if len(f.Blocks) == 0 || len(f.Blocks) > 80 || f == ex.fn || len(st.frames) >= 4 || !ex.opts.InlineCallee(f) {
 		return nil
 	}
 	for _, fr := range st.frames {
@@ -574,6 +609,16 @@ func (ex *executor) execFrom(st *pstate, b *ssa.BasicBlock, start int) {
 			st.stored[addr.Key()]++
 			st.epoch++
 		case *ssa.MapUpdate:
+			if mm := literalMapOf(in.Map); mm != nil && !ex.inLoop[b] {
+				// an entry of a local map literal: tracked like a local
+				nm := map[*ssa.MakeMap][]mapEntry{}
+				for k, v := range st.maps {
+					nm[k] = v
+				}
+				nm[mm] = append(append([]mapEntry(nil), nm[mm]...), mapEntry{tc.Of(in.Key), tc.Of(in.Value)})
+				st.maps = nm
+				continue
+			}
 			st.seq++
 			st.effects = append(st.effects, Effect{Seq: st.seq, Kind: "mapupdate", Instr: in, Addr: tc.Of(in.Map), Key: tc.Of(in.Key), Val: tc.Of(in.Value), InLoop: ex.inLoop[b] || st.viaLoop(ex), Block: b, Via: st.via()})
 			st.epoch++
@@ -623,6 +668,44 @@ func (ex *executor) execFrom(st *pstate, b *ssa.BasicBlock, start int) {
 			return
 		case *ssa.If:
 			ex.branch(st, b, in)
+			return
+		case *ssa.Lookup:
+			// `f, ok := table[selector]` on a local map literal: a dispatch — one path per entry (as a switch
+			// over the keys would give) plus the miss
+			mm := literalMapOf(in.X)
+			if mm == nil || !in.CommaOk || len(st.maps[mm]) == 0 {
+				continue
+			}
+			sel := tc.Of(in.Index)
+			entries := st.maps[mm]
+			eq := func(k *Term) *Term {
+				x, y := k, sel
+				if x.Key() > y.Key() {
+					x, y = y, x
+				}
+				return mk("bin", "==", nil, x, y)
+			}
+			for i := 0; i <= len(entries); i++ {
+				s2 := st
+				if i < len(entries) {
+					s2 = st.clone()
+					s2.tc = nil
+					ex.newTC(s2)
+					s2.tc.memo = copyMemo(st.tc.memo)
+				}
+				for j := 0; j < i && j < len(entries); j++ {
+					s2.seq++
+					s2.conds = append(s2.conds, PathCond{Term: eq(entries[j].key), Taken: false, Seq: s2.seq})
+				}
+				if i < len(entries) {
+					s2.seq++
+					s2.conds = append(s2.conds, PathCond{Term: eq(entries[i].key), Taken: true, Seq: s2.seq})
+					s2.tc.memo[in] = mk("tuple", "", in, entries[i].val, mk("const", "true", nil))
+				} else {
+					s2.tc.memo[in] = mk("tuple", "", in, mk("nil", "", nil), mk("const", "false", nil))
+				}
+				ex.execFrom(s2, b, idx+1)
+			}
 			return
 		default:
 			if v, ok := in.(ssa.Value); ok {
